@@ -13,7 +13,7 @@ claims = {
  "C04": ("contracts on the reverse pipeline: reverseContent streams every line read, in order, through the replacer and writes exactly the replaced lines (ghost stream history, loop invariant); the exit status is success iff some line changed; the trees reverse inspects are the listed files in listed order with the source on disk as a prefix (parseFiles / transformerForListedPackage / reflectMainPrePatch); build and reverse both hash call positions under fmt.Sprintf(\"%s:%d\", base name, offset) with the package being processed",
          "the agreement of offsets rests on go/printer + go/scanner emitting identifiers in Preorder order (position.go's own assumption), which is not proved; that strings.Replacer does the longest-first replacement the pair order intends is assumed; one known finding (cgo packages: reverse keys use build-cache paths)"),
  "C05": ("contracts on the encoder/decoder building blocks: evalOperator against a bit-vector spec, the reversed operator emitted with the same operands, the lemma that the reversed operator undoes the encoder for all bytes, index type wide enough for every position, even swap count covering the data, random index/operator ranges, obfuscator selection window",
-         "necessary conditions only: the round trip of each of the five obfuscators through the emitted loops and closures needs a semantics of emitted Go statements, which is not built; a labelled bounded stand-in (real code executed on generated programs) may accompany the check but is never counted as proved"),
+         "necessary conditions only: the round trip of each of the five obfuscators through the emitted loops and closures needs a semantics of emitted Go statements, which is not built; the check is accompanied by a labelled bounded stand-in (standins/c05_roundtrip_test.go: the real literals.Obfuscate on generated programs for a fixed number of seeds and literal lengths, built and run, output compared) reported under coverage.bounded_standins and never counted among the obligations"),
  "C06": ("functional contracts of the cache key ingredients: addGarbleToHash / appendFlags hash every build-affecting garble input (spec from the statement), cache IDs use distinct suffixes, linker stamp written == stamp checked",
          "cmd/go's own action IDs and what it does with them are assumed; the -ldflags/-literals staleness (DESIGN 12.1) is outside the functions under contract so far"),
  "C07": ("miss-on-error contracts for every garble cache reader (loadPkgCache, computePkgCache, loadGoAsmNames, debugdir readers) and the linker reuse condition, via ghost typestate hooks on the real I/O call sites",
